@@ -51,6 +51,8 @@ type scase struct {
 	// StreamNames: the golden entries are named stdout, stderr, ttyout (words
 	// that as a first argument of cmp mean a stream; as the second they are files)
 	StreamNames bool `json:"stream_names,omitempty"`
+	// RelRoot: Params.WorkdirRoot is a relative path
+	RelRoot bool `json:"rel_root,omitempty"`
 }
 
 // goldenName is the name the script uses for its i-th golden file.
@@ -82,6 +84,9 @@ func (c scase) String() string {
 	}
 	if c.StreamNames {
 		p = append(p, "entries-named-stdout-stderr-ttyout")
+	}
+	if c.RelRoot {
+		p = append(p, "relative-work-root")
 	}
 	for _, l := range c.Lines {
 		m := "mismatch"
@@ -187,12 +192,24 @@ func build(c scase) (string, bool) {
 
 var runSeq int64
 
-func runOn(root string, files []string, update bool) []*tsh.Result {
+// relRoot: the work-directory root is given as a path relative to the process's
+// current directory (which realMain sets to the scratch root).
+func runOn(root string, files []string, update bool, relRoot ...bool) []*tsh.Result {
 	t := tsh.NewT("goexit", false)
+	wr := filepath.Join(root, fmt.Sprintf("work%d", atomic.AddInt64(&runSeq, 1)))
+	if len(relRoot) > 0 && relRoot[0] {
+		cwd, err := os.Getwd()
+		if err != nil {
+			kit.Harness("getwd: %v", err)
+		}
+		if wr, err = filepath.Rel(cwd, wr); err != nil {
+			kit.Harness("rel: %v", err)
+		}
+	}
 	p := testscript.Params{
 		Files:         files,
 		UpdateScripts: update,
-		WorkdirRoot:   filepath.Join(root, fmt.Sprintf("work%d", atomic.AddInt64(&runSeq, 1))),
+		WorkdirRoot:   wr,
 		Cmds: map[string]func(ts *testscript.TestScript, neg bool, args []string){
 			"emit": func(ts *testscript.TestScript, neg bool, args []string) {
 				var k int
@@ -239,7 +256,7 @@ func check(root string, c scase, st *counters) string {
 	os.MkdirAll(dir, 0o777)
 	defer os.RemoveAll(dir)
 	file := tsh.WriteScript(dir, "s.txt", text)
-	res := runOn(dir, []string{file}, true)[0]
+	res := runOn(dir, []string{file}, true, c.RelRoot)[0]
 	return verify(dir, file, text, c, res, st)
 }
 
@@ -380,7 +397,7 @@ func verify(dir, file, text string, c scase, res *tsh.Result, st *counters) stri
 			}
 		}
 		if simple {
-			res2 := runOn(dir, []string{file}, false)[0]
+			res2 := runOn(dir, []string{file}, false, c.RelRoot)[0]
 			if st != nil {
 				atomic.AddInt64(&st.reruns, 1)
 			}
@@ -443,6 +460,10 @@ func realMain() {
 		kit.Harness("mkdtemp: %v", err)
 	}
 	defer os.RemoveAll(root)
+	// relative work-directory roots are relative to this
+	if err := os.Chdir(root); err != nil {
+		kit.Harness("chdir: %v", err)
+	}
 	r.Replayer = func(raw json.RawMessage) []kit.V {
 		var c scase
 		if err := json.Unmarshal(raw, &c); err != nil {
@@ -534,6 +555,13 @@ func realMain() {
 			}
 		}
 	}
+	// the work-directory root given as a relative path
+	for _, a := range dupLines {
+		cases = append(cases, scase{Lines: []cmpLine{a}, RelRoot: true})
+		for _, b := range dupLines {
+			cases = append(cases, scase{Lines: []cmpLine{a, b}, RelRoot: true})
+		}
+	}
 	// golden entries named like the streams
 	for _, a := range dupLines {
 		cases = append(cases, scase{Lines: []cmpLine{a}, StreamNames: true})
@@ -605,7 +633,7 @@ func realMain() {
 	wg.Wait()
 	r.Set("evaluations", done)
 	r.Set("distinct_nontrivial", st.updated)
-	r.Set("rule", "every script with 1 or 2 comparison lines (thorough: 3 over a reduced alphabet) from 7 kinds (cmp stdout / stderr / file against an archive golden, the same golden through another path spelling, negated cmp, cmpenv, cmp against a file outside the archive) x 14 actual contents (empty, no final newline, marker lines, a CRLF marker line, lines that start like a marker but are none, quoted-looking, CRLF, unquotable) x golden matching or not; untouched entries before, between and after; batches of two scripts in one RunT call; archives that repeat the first golden's name; scripts ended early by stop after the comparisons; scripts that make their first comparison twice; golden entries whose archive name holds a variable reference ($exe, ${nosuchvar}) that expands to nothing; golden entries named stdout / stderr / ttyout. non-trivial = golden entries actually rewritten and verified, counted")
+	r.Set("rule", "every script with 1 or 2 comparison lines (thorough: 3 over a reduced alphabet) from 7 kinds (cmp stdout / stderr / file against an archive golden, the same golden through another path spelling, negated cmp, cmpenv, cmp against a file outside the archive) x 14 actual contents (empty, no final newline, marker lines, a CRLF marker line, lines that start like a marker but are none, quoted-looking, CRLF, unquotable) x golden matching or not; untouched entries before, between and after; batches of two scripts in one RunT call; archives that repeat the first golden's name; scripts ended early by stop after the comparisons; scripts that make their first comparison twice; golden entries whose archive name holds a variable reference ($exe, ${nosuchvar}) that expands to nothing; golden entries named stdout / stderr / ttyout; Params.WorkdirRoot given as a relative path. non-trivial = golden entries actually rewritten and verified, counted")
 	r.Set("golden_entries_rewritten_and_verified", st.updated)
 	r.Set("of_which_quoted", st.quoted)
 	r.Set("entries_verified_untouched", st.untouched)
